@@ -142,6 +142,12 @@ impl ReaderKind {
 	}
 }
 
+/// zero-width elements (fixed of size 0, empty strings) still cost a source call each, so the budget is a
+/// function of the input length AND of max_seq_size — the same shape as the property's work bound
+pub fn step_budget(len: usize, limits: &Limits) -> u64 {
+	256u64 + 16 * len as u64 + 8u64.saturating_mul(len as u64 + 2).saturating_mul(limits.max_seq_size as u64 + 2)
+}
+
 pub fn decode_reader(
 	schema: &Schema,
 	env: &Env,
@@ -157,7 +163,7 @@ pub fn decode_reader(
 	config.allowed_depth = limits.allowed_depth;
 	match kind {
 		ReaderKind::Direct(plan) => {
-			let mut src = SimSource::new(bytes, plan.clone()).with_faults(faults.to_vec());
+			let mut src = SimSource::new(bytes, plan.clone()).with_faults(faults.to_vec()).with_step_budget(step_budget(bytes.len(), &limits));
 			let (r, callbacks, max_depth) = {
 				let mut rr = ReaderRead::new(&mut src);
 				rr.max_alloc_size = limits.max_alloc_size;
@@ -178,7 +184,7 @@ pub fn decode_reader(
 			)
 		}
 		ReaderKind::BufReader { cap, plan } => {
-			let mut src = SimSource::new(bytes, plan.clone()).with_faults(faults.to_vec());
+			let mut src = SimSource::new(bytes, plan.clone()).with_faults(faults.to_vec()).with_step_budget(step_budget(bytes.len(), &limits));
 			let (r, callbacks, max_depth, buffered) = {
 				let br = std::io::BufReader::with_capacity((*cap).max(1), &mut src);
 				let mut rr = ReaderRead::new(br);
